@@ -481,6 +481,23 @@ theorem pushdown_projections_needs_no_distinct :
       ≠ project (fun r => [col 0 r]) (distinct (project (fun r => [col 0 r]) [[.int 1, .int 1], [.int 1, .int 2]])) := by
   decide
 
+/-- **set operations match columns BY POSITION**: pruning the same positions on both operands of a UNION ALL
+    preserves the result, for all tables (the parent's needs must be handed to the right operand by ordinal) -/
+theorem setop_prune_by_position_preserves (f : Row → Row) (l r : Table) :
+    project f (l ++ r) = project f l ++ project f r := by
+  simp [project]
+
+/-- NECESSITY (seeded regression C03-7 "by name"): left exposes (a, b), right exposes (b, a) — same names, other
+    order; the parent reads `a`.  By position the right operand must keep its FIRST column; keeping the column NAMED
+    `a` (its second) returns different rows -/
+theorem setop_prune_by_name_counterexample :
+    project (fun r => [col 0 r]) ([[Val.int 1, .int 2]] ++ [[.int 3, .int 4]]) = [[.int 1], [.int 3]] ∧
+    project (fun r => [col 0 r]) [[Val.int 1, .int 2]] ++ project (fun r => [col 1 r]) [[Val.int 3, .int 4]]
+      = [[.int 1], [.int 4]] := by decide
+
+/-- TABLE FACT (ast): the right operand's referenced columns are computed by ordinal position -/
+theorem setop_right_operand_by_ordinal : setOpRightByOrdinal = true := by decide
+
 theorem projection_guards_present :
     ProjAtom.distinct ∈ projKeepAll ∧ ProjAtom.intersectExcept ∈ projKeepAll := by decide
 
